@@ -172,19 +172,19 @@ func (v *vPart) expand(replica string) error {
 // keep -- computed from its own record of (offset, epoch), not from any epoch cache.
 
 type vSimLeader struct {
-	budget int   // entries the real follower may still be given (a scheduled fetch sets it)
-	hwSent int64 // the HW told to the real follower at its last scheduled fetch
-	gated  bool  // serve data only against the budget
-	served chan int64
-	v      *vPart
-	name   string
-	log    commitlog.CommitLog
-	epochs []uint64 // epoch of the message at each offset
-	hw     int64
-	epoch  uint64 // the leader epoch it leads in (0 = not leading)
-	mu     sync.Mutex
-	subs   []*nats.Subscription
-	asked  []vM // leader-offset requests it answered
+	budget  int   // entries the real follower may still be given (a scheduled fetch sets it)
+	hwSent  int64 // the HW told to the real follower at its last scheduled fetch
+	gated   bool  // serve data only against the budget
+	served  chan int64
+	v       *vPart
+	name    string
+	log     commitlog.CommitLog
+	epochs  []uint64 // epoch of the message at each offset
+	hw      int64
+	epoch   uint64 // the leader epoch it leads in (0 = not leading)
+	mu      sync.Mutex
+	subs    []*nats.Subscription
+	asked   []vM                 // leader-offset requests it answered
 	onFetch func(reported int64) // called (under the lock) when a scheduled fetch arrives, before the HW is read
 }
 
@@ -211,7 +211,9 @@ func (sl *vSimLeader) close() {
 }
 
 // appendMsg stores a message of the given epoch in the phantom leader's log.
-func (sl *vSimLeader) appendMsg(epoch uint64, value string) int64 { return sl.appendKV(epoch, nil, []byte(value)) }
+func (sl *vSimLeader) appendMsg(epoch uint64, value string) int64 {
+	return sl.appendKV(epoch, nil, []byte(value))
+}
 
 func (sl *vSimLeader) appendKV(epoch uint64, key, value []byte) int64 {
 	sl.mu.Lock()
